@@ -98,19 +98,20 @@ class Gen:
             "arm": self.arm,
             "hashseed": r.choice(HASHSEEDS[tier]),
             "cache": r.choice(CACHES[tier]),
-            "ipykernel": r.random() < 0.25,
+            "ipykernel": r.random() < 0.15,
             "rseed": r.randrange(1 << 16),
             "sessions": r.randint(1, 4),
             "p_share": r.choice([0.05, 0.2, 0.4, 0.6]),
             "libnames": r.random() < 0.25,
             "grammar": r.random() < 0.3,
             "argrename": r.random() < 0.3,
+            "twins": r.random() < 0.3,
             "nops": r.randint(10, MAX_OPS[tier]),
         }
         base_w = {
             "compile_str": 5.0, "compile_callable": 1.5, "compile_defs": 2.5, "compile_param": 1.2, "param_defs": 1.0,
             "to_logicfun": 0.8, "bind": 3.0, "oraclize": 2.0, "algo": 3.0, "secret_oracle": 0.4,
-            "export": 2.0, "decompile": 1.0, "truth_table": 1.5, "header": 0.3, "repr": 0.3, "again": 1.5, "forget": 0.8, "canary": 1.2,
+            "export": 2.0, "decompile": 1.0, "truth_table": 1.5, "header": 0.3, "repr": 0.3, "again": 1.5, "forget": 0.8, "canary": 1.2, "variant": 0.8, "recompile": 0.6,
         }
         # swarm: every run disables / boosts a random subset of op kinds
         self.w = {k: v * r.choice([0, 0.5, 1, 1, 2, 3]) for k, v in sorted(base_w.items())}
@@ -126,6 +127,7 @@ class Gen:
         self.name_bodies = {}
         self.interrupted = set()
         self.forgotten = set()
+        self.recompiles = {}
         self.side = {}
         self.interesting = []
 
@@ -145,6 +147,8 @@ class Gen:
         if self.cfg["grammar"] and r.random() < 0.35:
             src, meta = progs.grammar(r, name="f", max_bits=8)
             return src, meta
+        if self.cfg.get("twins") and r.random() < 0.3:
+            return progs.typed_twin(r, "sel")
         p = r.choice(src_pool)
         return p["src"], p
 
@@ -164,6 +168,12 @@ class Gen:
 
     def add(self, kind, a, uses, s, rk, meta=None, name=None, srcd=None):
         oid = len(self.ops)
+        # an op that uses an object also depends on the recompiles that object went through so far
+        uses = list(uses)
+        for u in list(uses):
+            uses.extend(self.recompiles.get(u, []))
+        if kind == "recompile":
+            self.recompiles.setdefault(a["target"], []).append(oid)
         self.ops.append({"id": oid, "kind": kind, "a": a, "uses": sorted(set(uses)), "s": s})
         self.side[oid] = (rk, meta, name)
         for u in uses:
@@ -203,10 +213,13 @@ class Gen:
             p = r.choice(progs.REJECT)
             src, meta, rejected = p["src"], p, True
         name = progs.fname(src)
-        if r.random() < 0.6:
+        if meta.get("twin"):
+            name = r.choice(["sel", "sel", "h"])
+            src = progs.rename(src, name)
+        elif r.random() < 0.6:
             name = self.pick_name()
             src = progs.rename(src, name)
-        if self.cfg["argrename"] and r.random() < 0.5 and not rejected:
+        if self.cfg["argrename"] and r.random() < 0.5 and not rejected and not meta.get("twin"):
             src2 = progs.rename_args(src, r)
             if src2 != src:
                 src = src2
@@ -258,7 +271,10 @@ class Gen:
                 e2 = self.pick(c2, s)
                 second = e2["name"]
                 uses.append(e2["id"])
-        src = progs.make_caller(callee["name"], m["argsig"], m["retsig"], cname, r, second)
+        if m.get("twin"):
+            src = progs.twin_caller(callee["name"], m["argsig"], m["retsig"], cname, r)
+        else:
+            src = progs.make_caller(callee["name"], m["argsig"], m["retsig"], cname, r, second)
         if self.arm == "reject" and r.random() < 0.25:
             # F1: calls a function that exists in the pool but is not passed in defs
             uses = uses[1:] if second else []
@@ -469,6 +485,16 @@ class Gen:
         self.ops[oid]["canary"] = ci
         return True
 
+    def b_recompile(self, s):
+        """qf.compile(...) again: a legitimate in-place change of the caller's own object"""
+        c = self.cands(lambda e: e["rk"] == "qf" and e["meta"].get("argsig") is not None)
+        if not c:
+            return False
+        e = self.pick(c, s)
+        self.add("recompile", {"target": e["id"], "uncompute": self.r.random() < 0.5}, [e["id"]], s, "none")
+        e["meta"] = dict(e["meta"], compiled=True)
+        return True
+
     def b_forget(self, s):
         """drop the host's reference to an object (and collect): frees ids for reuse"""
         c = self.cands(lambda e: True)
@@ -478,6 +504,26 @@ class Gen:
         self.add("forget", {"target": e["id"]}, [e["id"]], s, "none")
         self.pool = [x for x in self.pool if x["id"] != e["id"]]
         self.forgotten.add(e["id"])
+        return True
+
+    def b_variant(self, s):
+        """re-issue an earlier compile with one option flipped (same source text, other result)"""
+        r = self.r
+        c = [o for o in self.ops if o["kind"] == "compile_str" and not any(u in self.forgotten or u in self.interrupted for u in o["uses"])]
+        if not c:
+            return False
+        src_op = r.choice(c)
+        a = dict(src_op["a"])
+        flip = r.choice(["opt", "uncompute", "to_compile"])
+        if flip == "opt":
+            a["opt"] = "fast" if a["opt"] == "default" else "default"
+        else:
+            a[flip] = not a[flip]
+        rk, meta, name = self.side[src_op["id"]]
+        m2 = dict(meta or {})
+        m2["compiled"] = a["to_compile"]
+        oid = self.add("compile_str", a, list(src_op["uses"]), s, rk, m2, name)
+        self.interesting.append(oid)
         return True
 
     def b_again(self, s, k=None):
@@ -541,7 +587,7 @@ class Gen:
             return out
         nf = r.randint(1, 4)
         ids = [o["id"] for o in self.ops]
-        heavy = [o["id"] for o in self.ops if o["kind"] in ("compile_str", "compile_callable", "bind", "oraclize", "algo", "truth_table", "decompile", "export")]
+        heavy = [o["id"] for o in self.ops if o["kind"] in ("compile_str", "compile_callable", "bind", "oraclize", "algo", "truth_table", "decompile", "export", "recompile")]
         inter = [i for i in self.interesting if i < len(self.ops)]
         for j in range(nf):
             if inter and r.random() < 0.5:
@@ -592,6 +638,39 @@ def make_canaries(batch_seed, tier):
                 nops[p]["rk"], nops[p]["meta"], nops[p]["name"] = rk, meta, name
             out.append({"ops": nops, "key": key})
             want[k] -= 1
+    # variants: the same closure with ONE compile option of its first op flipped -- a process that
+    # remembers a translation by source text, name or callee name (and not by everything that
+    # determines it) gives one of the two the other's result
+    import copy as _copy
+
+    rv = rng_for(batch_seed, "canary-variants")
+    for can in list(out):
+        first = can["ops"][0]
+        if first["kind"] != "compile_str" or rv.random() < 0.4:
+            continue
+        v = _copy.deepcopy(can)
+        a = v["ops"][0]["a"]
+        flip = rv.choice(["opt", "uncompute", "via", "body"] if len(v["ops"]) > 1 else ["opt", "uncompute", "via"])
+        if flip == "opt":
+            a["opt"] = "fast" if a["opt"] == "default" else "default"
+        elif flip == "uncompute":
+            a["uncompute"] = not a["uncompute"]
+            a["to_compile"] = True
+        elif flip == "via" and not a.get("defs"):
+            a["via"] = "from_function" if a["via"] == "qlassf" else "qlassf"
+        else:
+            # a callee of the same name and signature with another body (only where something depends on it)
+            nm = progs.fname(a["src"])
+            meta = v["ops"][0].get("meta") or {}
+            if meta.get("retsig") == "bool" and meta.get("argsig"):
+                sig = ", ".join(f"{n}: {t}" for n, t in meta["argsig"])
+                a["src"] = f"def {nm}({sig}) -> bool:\n    return False\n"
+            else:
+                a["opt"] = "fast" if a["opt"] == "default" else "default"
+        v["key"] = digest([{k: x for k, x in o.items() if k not in ("rk", "meta", "name")} for o in v["ops"]], 16)
+        if v["key"] not in seen:
+            seen.add(v["key"])
+            out.append(v)
     return out
 
 
@@ -610,7 +689,9 @@ def reftable_jobs(canaries):
     out = []
     for can in canaries:
         nops = [{k: v for k, v in o.items() if k not in ("rk", "meta", "name")} for o in can["ops"]]
-        for ipk in (False, True):
+        # the notebook marker is read by bind() only: the second variant is computed for closures
+        # that contain a bind; other canaries met in a notebook-marker history are not compared
+        for ipk in ((False, True) if any(o["kind"] == "bind" for o in nops) else (False,)):
             cfg = {"ipykernel": ipk, "rseed": 0}
             out.append((digest([env_key(cfg), nops], 24), cfg, nops))
     return out
@@ -744,6 +825,12 @@ def do_op(op, objs, tmpdir):
         return F.fp_table(objs[a["target"]].truth_table(max=a["max"]))
     if k == "header":
         return {"kind": "header", "h": list(objs[a["target"]].truth_table_header())}
+    if k == "recompile":
+        import fingerprint as F
+
+        o = objs[a["target"]]
+        o.compile(uncompute=a["uncompute"])
+        return {"kind": "recompiled", "fp": F.fp_any(o)}
     if k == "forget":
         import gc
 
@@ -755,7 +842,7 @@ def do_op(op, objs, tmpdir):
     raise RuntimeError("unknown op kind " + k)
 
 
-KEEP = ("compile_str", "compile_callable", "to_logicfun", "bind", "oraclize", "algo", "secret_oracle", "decompile")
+KEEP = ("compile_str", "compile_callable", "to_logicfun", "bind", "oraclize", "algo", "secret_oracle", "decompile", "recompile")
 
 
 def fp_result(op, res):
@@ -769,13 +856,13 @@ def fp_result(op, res):
 def role_of(op, victim):
     a = op["a"]
     if a.get("target") == victim:
-        return {"algo": "blackbox", "oraclize": "oracle-source", "bind": "unbound", "export": "exported", "decompile": "decompiled", "to_logicfun": "converted"}.get(op["kind"], "target")
+        return {"algo": "blackbox", "oraclize": "oracle-source", "bind": "unbound", "export": "exported", "decompile": "decompiled", "to_logicfun": "converted", "recompile": "recompiled"}.get(op["kind"], "target")
     if victim in a.get("defs", []):
         return "def"
     return "bystander"
 
 
-STATIC_LINES = {"compile_str": 6000, "compile_callable": 6000, "bind": 5000, "oraclize": 5000, "algo": 300, "secret_oracle": 5000,
+STATIC_LINES = {"recompile": 3000, "compile_str": 6000, "compile_callable": 6000, "bind": 5000, "oraclize": 5000, "algo": 300, "secret_oracle": 5000,
                 "export": 200, "decompile": 300, "truth_table": 800, "header": 20, "repr": 30, "to_logicfun": 10, "forget": 1}
 
 
@@ -945,6 +1032,13 @@ def run_history(cfg, ops, faults, prefix, tmpdir, est=None):
         if op["kind"] == "forget":
             kinds.pop(op["a"]["target"], None)
             base.pop(op["a"]["target"], None)
+        if op["kind"] == "recompile" and op["a"]["target"] in objs:
+            # the one op that is meant to change its operand: re-baseline it (also after a failed
+            # or interrupted recompile, about which the statement says nothing for the target itself)
+            try:
+                base[op["a"]["target"]] = fp_result({"kind": "?"}, objs[op["a"]["target"]])
+            except Exception:
+                pass
         records.append(rec)
         fired = rec.get("fired", [])
 
@@ -1111,9 +1205,13 @@ def reference_for(plan, ctx, k, byid, table=None):
     cl = closure(byid, k)
     nops = norm_closure(byid, cl)
     key = digest([env_key(cfg), nops], 24)
-    if table is not None and key in table:
-        ctx.memo_hits += 1
-        return table[key], None
+    if table is not None:
+        # batch mode: references come from the table computed up front, never from a fork here
+        if key in table:
+            ctx.memo_hits += 1
+            return table[key], None
+        if "canary" in byid[k]:
+            return None, None
     if key in ctx.memo:
         ctx.memo_hits += 1
         return ctx.memo[key], None
@@ -1153,7 +1251,8 @@ def run_segment(plan, ctx, detail=False, table=None):
         r, err = reference_for(plan, ctx, k, byid, table)
         if err is not None:
             return {"status": "timeout" if "_timeout" in err else "harness_error", "where": "reference", "err": err}
-        refs[k] = r
+        if r is not None:
+            refs[k] = r
     faults = {}
     planned = {}
     for f in plan.get("faults", []):
